@@ -20,9 +20,9 @@ TIMEFRAMES = [
     "S1", "S5", "S10", "S15", "S30", "S45", "S90",
     "T1", "T2", "T3", "T4", "T5", "T7", "T10", "T15", "T30", "T45", "T90",
     "H1", "H2", "H3", "H4", "H7",
-    "D1", "D2",
+    "D1", "D2", "D7",
 ]
-BASE_INTERVALS = [1, 5, 15, 30, 60, 300, 900, 1800, 3600]
+BASE_INTERVALS = [1, 5, 15, 30, 60, 300, 900, 1800, 3600, 21600, 43200]
 
 REGIMES_NORMAL = ["range", "trend_up", "trend_down"]
 REGIMES_DEGENERATE = ["stall", "stall0", "zerovol", "oneside_up", "oneside_down"]
